@@ -65,7 +65,7 @@ theorem calm_delivery_answer (n : Net) (hinv : CalmNet E ids n) (s s' : State) (
   obtain ⟨h1, h2, _⟩ := hinv
   obtain ⟨h0, hm, q1, q2, q3, q4, q5⟩ := h2 d b hw
   have hdat : DataOk E (CalmM (toldBy n.sent) ids) (CalmH (toldBy n.sent) ids) b :=
-    shape_dataOk E hl hhdr (fun u hu => (mwire_iff u).1 hu.1.1) q5 q2 ⟨q2, q3, toldBy_mem hm, q4⟩
+    shape_dataOk E hl hhdr (fun u hu => (mwire_iff u).1 hu.1.1) q5 q2 ⟨q2, q3.1, toldBy_mem hm, q4, q3.2⟩
   have hdec0 := shape_header E hhdr q5 q2
   obtain ⟨rest0, hdec⟩ : ∃ rest0, E.codec.decHeader b = some (h0, rest0) := by
     cases hd : E.codec.decHeader b with
@@ -143,7 +143,7 @@ theorem calm_consume (n : Net) (hinv : CalmNet E ids n) (i : Nat) (s s' : State)
   have hsmem : s ∈ n.nodes := List.mem_of_getElem? hs
   have hdat : CalmOp E (toldBy n.sent) ids s (.data b) := by
     obtain ⟨h0, hm, q1, q2, q3, q4, q5⟩ := hinv.2.1 d b hw
-    exact shape_dataOk E hl hhdr (fun u hu => (mwire_iff u).1 hu.1.1) q5 q2 ⟨q2, q3, toldBy_mem hm, q4⟩
+    exact shape_dataOk E hl hhdr (fun u hu => (mwire_iff u).1 hu.1.1) q5 q2 ⟨q2, q3.1, toldBy_mem hm, q4, q3.2⟩
   refine ⟨?_, ?_⟩
   · exact CalmNet.after E ids hhdr hdist ({ n with wire := n.wire.erase (d, b) } : Net) i s s' (.data b) orc eff r left
       (CalmNet.erase E ids hinv (d, b)) hs hdat hstep
